@@ -18,7 +18,7 @@ package fox
 //@ -- accepted byte count; at most one final status was forwarded and it is the recorded status.
 //@ pred recINV(r *recorder) = wFinal[r.ResponseWriter] >= 0 && wBody[r.ResponseWriter] >= 0 && (!r.hijacked ==> (r.size == -1 <==> wFinal[r.ResponseWriter] == 0) && (wFinal[r.ResponseWriter] == 0 ==> wBody[r.ResponseWriter] == 0 && r.status == 200) && (r.size >= 0 ==> r.size == wBody[r.ResponseWriter]) && r.size >= -1 && wFinal[r.ResponseWriter] <= 1 && (wFinal[r.ResponseWriter] == 1 ==> r.status == wFirst[r.ResponseWriter]))
 
-//@ func (*recorder).reset props C14,C12
+//@ func (*recorder).reset props C14,C12,C20
 //@   noalloc @C16
 //@   requires r != nil
 //@   requires wFinal[w] == 0 && wBody[w] == 0
@@ -26,24 +26,24 @@ package fox
 //@   ensures r.ResponseWriter == w && r.size == -1 && r.status == 200 && !r.hijacked
 //@   ensures recINV(r)
 
-//@ func (*recorder).Status props C14
+//@ func (*recorder).Status props C14,C20
 //@   requires r != nil
 //@   ensures result == r.status
 //@   ensures recINV(r) && !r.hijacked && wFinal[r.ResponseWriter] >= 1 ==> result == wFirst[r.ResponseWriter]
 
-//@ func (*recorder).Written props C14
+//@ func (*recorder).Written props C14,C20
 //@   requires r != nil
 //@   ensures result <==> r.size != -1
 //@   ensures recINV(r) && !r.hijacked ==> (result <==> wFinal[r.ResponseWriter] >= 1 || wBody[r.ResponseWriter] >= 1)
 
-//@ func (*recorder).Size props C14
+//@ func (*recorder).Size props C14,C20
 //@   requires r != nil
 //@   ensures result == (r.size < 0 ? 0 : r.size)
 //@   ensures recINV(r) && !r.hijacked ==> result == wBody[r.ResponseWriter]
 
 //@ extern relevantCaller
 
-//@ func (*recorder).WriteHeader props C14
+//@ func (*recorder).WriteHeader props C14,C20
 //@   requires r != nil && r.ResponseWriter != nil
 //@   requires recINV(r)
 //@   modifies r.size, r.status, wFinal[r.ResponseWriter], wFirst[r.ResponseWriter], wInfo[r.ResponseWriter]
@@ -53,7 +53,7 @@ package fox
 //@   ensures info: !old(r.hijacked) && old(r.size) == -1 && informational(code) ==> wInfo[r.ResponseWriter] == old(wInfo[r.ResponseWriter]) + 1 && wFinal[r.ResponseWriter] == 0 && r.size == -1 && r.status == old(r.status)
 //@   ensures final: !old(r.hijacked) && old(r.size) == -1 && !informational(code) ==> wFinal[r.ResponseWriter] == 1 && wFirst[r.ResponseWriter] == code && r.status == code && r.size == 0
 
-//@ func (*recorder).Write props C14
+//@ func (*recorder).Write props C14,C20
 //@   requires r != nil && r.ResponseWriter != nil
 //@   requires recINV(r)
 //@   modifies r.size, wBody[r.ResponseWriter], wFinal[r.ResponseWriter], wFirst[r.ResponseWriter]
@@ -62,7 +62,7 @@ package fox
 //@   ensures bytes: !old(r.hijacked) ==> 0 <= n && n <= len(buf) && wBody[r.ResponseWriter] == old(wBody[r.ResponseWriter]) + n
 //@   ensures header: !old(r.hijacked) ==> wFinal[r.ResponseWriter] == 1 && wFirst[r.ResponseWriter] == old(r.status) && r.status == old(r.status)
 
-//@ func (*recorder).WriteString props C14
+//@ func (*recorder).WriteString props C14,C20
 //@   requires r != nil && r.ResponseWriter != nil
 //@   requires recINV(r)
 //@   modifies r.size, wBody[r.ResponseWriter], wFinal[r.ResponseWriter], wFirst[r.ResponseWriter]
@@ -76,7 +76,7 @@ package fox
 
 //@ -- the fast path (wrapped writer implements io.ReaderFrom) and the io.CopyBuffer fallback must
 //@ -- satisfy the same postcondition, stated once
-//@ func (*recorder).ReadFrom props C14
+//@ func (*recorder).ReadFrom props C14,C20
 //@   -- assumed: copyBufPool only ever holds *[]byte (its New function and the Put below)
 //@   assume-at after (*Pool).Get#1 : pool-type: dyntypeIs(call_result, bufPtr) && unbox(call_result, bufPtr) != nil
 //@   requires r != nil && r.ResponseWriter != nil && recINV(r) && !r.hijacked
@@ -84,33 +84,33 @@ package fox
 //@   ensures inv: recINV(r)
 //@   ensures bytes: n >= 0 && wBody[r.ResponseWriter] == old(wBody[r.ResponseWriter]) + n
 
-//@ func (*recorder).FlushError props C14
+//@ func (*recorder).FlushError props C14,C20
 //@   requires r != nil && r.ResponseWriter != nil && recINV(r)
 //@   modifies r.size, r.status, wFinal[r.ResponseWriter], wFirst[r.ResponseWriter], wInfo[r.ResponseWriter], wFlush[r.ResponseWriter]
 //@   ensures inv: recINV(r)
 //@   ensures unsupported: !implements(r.ResponseWriter, flushErrorer) && !implements(r.ResponseWriter, http.Flusher) ==> errIs(result, http.ErrNotSupported) && wFlush[r.ResponseWriter] == old(wFlush[r.ResponseWriter]) && wFinal[r.ResponseWriter] == old(wFinal[r.ResponseWriter])
 //@   ensures delegated: implements(r.ResponseWriter, flushErrorer) || implements(r.ResponseWriter, http.Flusher) ==> wFlush[r.ResponseWriter] == old(wFlush[r.ResponseWriter]) + 1
-//@   ensures @C14,C15 header-first: (implements(r.ResponseWriter, flushErrorer) || implements(r.ResponseWriter, http.Flusher)) && !r.hijacked ==> wFinal[r.ResponseWriter] == 1 && r.size >= 0
+//@   ensures @C14,C15,C20 header-first: (implements(r.ResponseWriter, flushErrorer) || implements(r.ResponseWriter, http.Flusher)) && !r.hijacked ==> wFinal[r.ResponseWriter] == 1 && r.size >= 0
 
-//@ func (*recorder).Push props C14
+//@ func (*recorder).Push props C14,C20
 //@   requires r != nil
 //@   ensures !implements(r.ResponseWriter, http.Pusher) ==> errIs(result, http.ErrNotSupported)
 
-//@ func (*recorder).Hijack props C14
+//@ func (*recorder).Hijack props C14,C20
 //@   requires r != nil
 //@   modifies r.hijacked, wHijack[r.ResponseWriter]
 //@   ensures !implements(r.ResponseWriter, http.Hijacker) ==> errIs(result2, http.ErrNotSupported) && r.hijacked == old(r.hijacked) && wHijack[r.ResponseWriter] == old(wHijack[r.ResponseWriter])
 //@   ensures implements(r.ResponseWriter, http.Hijacker) ==> r.hijacked && wHijack[r.ResponseWriter] == old(wHijack[r.ResponseWriter]) + 1
 
-//@ func (*recorder).SetReadDeadline props C14
+//@ func (*recorder).SetReadDeadline props C14,C20
 //@   requires r != nil
 //@   ensures !implements(r.ResponseWriter, readDeadliner) ==> errIs(result, http.ErrNotSupported)
 
-//@ func (*recorder).SetWriteDeadline props C14
+//@ func (*recorder).SetWriteDeadline props C14,C20
 //@   requires r != nil
 //@   ensures !implements(r.ResponseWriter, writeDeadliner) ==> errIs(result, http.ErrNotSupported)
 
-//@ func (*recorder).EnableFullDuplex props C14
+//@ func (*recorder).EnableFullDuplex props C14,C20
 //@   requires r != nil
 //@   ensures !implements(r.ResponseWriter, fullDuplexer) ==> errIs(result, http.ErrNotSupported)
 
